@@ -755,3 +755,4 @@ META['explanation'] += ' ' + "Further: min_length resolves to max(min_length, ng
 
 META['explanation'] += ' ' + 'Round 13: the counter of the transition scan is re-initialised on every pass of the level fall-back loop.'
 META['technique'] = META.get('technique', '') + ' + loop-counter lifetime rule for the level fall-back'
+META['explanation'] += ' ' + 'Round 14: the IP / CP / EP writers save every entry of the in-memory model the trainer scores with.'
